@@ -426,8 +426,28 @@ REAL_RANGES = [(1, 5), (-2, 4), (4, -2), (-7.5, -0.25), (-0.25, -7.5), (3, 3), (
 INT_RANGES = [(1, 5), (-2, 4), (4, -2), (-7, -3), (-3, -7), (3, 3), (-4, -4), (0, 0), (0, 1), (1, 0), (-1, 1), (10, 13),
               (-1000, 1000), (5, 4)]
 RECTS = [((1, 3), (1, 3)), ((1, 4), (-5, 0)), ((4, 1), (0, -5)), ((-2, -2), (3, 3)), ((0, 0), (-1, 1)), ((-0.5, 0.5), (2, 2))]
-SECTORS = [((1, 3), (0, math.pi / 2)), ((0, 1), (-math.pi, math.pi)), ((2, 2), (0, 1)), ((1, 3), (1, 1)), ((3, 1), (math.pi / 2, 0)),
-           ((0.5, 0.5), (-0.25, -0.25)), ((0, 2), (3, 3.1)), ((1, 2), (-3, -2))]
+_PI = math.pi
+SECTORS = [((1, 3), (0, _PI / 2)), ((0, 1), (-_PI, _PI)), ((2, 2), (0, 1)), ((1, 3), (1, 1)), ((3, 1), (_PI / 2, 0)),
+           ((0.5, 0.5), (-0.25, -0.25)), ((0, 2), (3, 3.1)), ((1, 2), (-3, -2)),
+           # argument ranges whose endpoints lie outside [-pi, pi], straddle +-pi, exceed 2 pi, are reversed or degenerate:
+           # the declared arc is {theta : lo <= theta <= hi}, membership is decided modulo 2 pi on that arc
+           ((1, 2), (_PI / 2, 3 * _PI / 2)), ((1, 2), (_PI, 2 * _PI)), ((0.5, 1), (0, 3 * _PI / 2)),
+           ((1, 3), (3 * _PI / 4, 5 * _PI / 4)), ((1, 2), (2 * _PI, 3 * _PI)), ((2, 3), (-3 * _PI / 2, -_PI / 2)),
+           ((1, 2), (-5 * _PI / 4, -3 * _PI / 4)), ((1, 1.5), (3 * _PI / 2, _PI / 2)), ((1, 2), (2 * _PI, _PI)),
+           ((1, 2), (4, 4)), ((1, 2), (-4, -4)), ((1, 2), (7, 7.5)), ((0.5, 2), (-9, -8.5)), ((1, 2), (3, 3.5)),
+           ((1, 2), (-3.5, -3)), ((1, 2), (0, 2 * _PI)), ((1, 2), (5 * _PI, 5.5 * _PI)), ((1, 2), (-0.5, 7))]
+
+
+def random_sector(rng):
+    """a random declared sector: endpoints anywhere in [-4 pi, 4 pi], arcs from degenerate to more than a full turn"""
+    lo = rng.uniform(-4 * _PI, 4 * _PI)
+    width = rng.choice([0.0, rng.uniform(0, 0.5), rng.uniform(0, _PI), rng.uniform(_PI, 2 * _PI), rng.uniform(0, 7)])
+    arg = (lo, lo + width)
+    if rng.random() < 0.3:
+        arg = (arg[1], arg[0])
+    m0 = rng.choice([0, 0.5, 1, rng.uniform(0, 3)])
+    mod = (m0, m0 + rng.choice([0, 1, rng.uniform(0, 2)]))
+    return mod, arg
 
 
 def sector_member(z, mod, arg, tol):
@@ -539,6 +559,8 @@ def run_scalars(ctx, res, rng, rec, terms, metas):
         a, b = rng.choice([-1, 1]) * rng.random() * 10 ** rng.randint(-3, 3), rng.choice([-1, 1]) * rng.random() * 10 ** rng.randint(-3, 3)
         plan.append(('real', (a, b), 4))
         plan.append(('int', (rng.randint(-50, 50), rng.randint(-50, 50)), 6))
+    for _ in range(24 * mult):
+        plan.append(('sect', random_sector(rng), 4))
     counts = {}
     for kind, cfg, n in plan:
         for form in (0, 1):
@@ -1130,7 +1152,8 @@ def run_identity(ctx, res, rng, rec, terms, metas):
     from mitxgraders import IdentityMatrixMultiples, MathArray
     quick = ctx['tier'] == 'quick' and not ctx['escalate']
     samplers = [('real', (1, 5)), ('real', (4, -2)), ('real', (3, 3)), ('int', (-2, 4)), ('int', (7, 7)),
-                ('rect', ((1, 4), (-5, 0))), ('sect', ((1, 3), (0, math.pi / 2))), ('sect', ((0, 1), (-math.pi, math.pi)))]
+                ('rect', ((1, 4), (-5, 0))), ('sect', ((1, 3), (0, math.pi / 2))), ('sect', ((0, 1), (-math.pi, math.pi))),
+                ('sect', ((1, 2), (math.pi / 2, 3 * math.pi / 2)))]
     count = 0
     for dim in (2, 3, 4, 5):
         for kind, cfg in samplers + [('list', (1, 3)), ('default', None)]:
